@@ -72,6 +72,7 @@ type posItem struct {
 	what string
 	pos  modfile.Position
 	text string // text that must start at pos.Byte ("" = unknown)
+	end  bool   // the position is an end: text must end at pos.Byte instead
 }
 
 // projectSyntax returns the statements, the comment texts in source order and every position of the tree.
@@ -88,7 +89,7 @@ func projectSyntax(fs *modfile.FileSyntax) (stmts []synStmt, comments []string, 
 					continue // blank line marker inside a block
 				}
 				coms = append(coms, com{x.Start.Byte, strings.TrimSpace(x.Token)})
-				positions = append(positions, posItem{"comment", x.Start, x.Token})
+				positions = append(positions, posItem{"comment", x.Start, x.Token, false})
 			}
 		}
 	}
@@ -101,25 +102,27 @@ func projectSyntax(fs *modfile.FileSyntax) (stmts []synStmt, comments []string, 
 			addComs(&x.Comments)
 			stmts = append(stmts, synStmt{Type: "line", Tokens: toksOf(x.Token)})
 			if len(x.Token) > 0 {
-				positions = append(positions, posItem{"line start", x.Start, x.Token[0]})
+				positions = append(positions, posItem{"line start", x.Start, x.Token[0], false})
+				positions = append(positions, posItem{"line end", x.End, x.Token[len(x.Token)-1], true})
 			}
 		case *modfile.LineBlock:
 			addComs(&x.Comments)
 			addComs(&x.LParen.Comments)
 			b := synStmt{Type: "block", Tokens: toksOf(x.Token), Lines: [][][]int{}}
 			if len(x.Token) > 0 {
-				positions = append(positions, posItem{"block start", x.Start, x.Token[0]})
+				positions = append(positions, posItem{"block start", x.Start, x.Token[0], false})
 			}
-			positions = append(positions, posItem{"lparen", x.LParen.Pos, "("})
+			positions = append(positions, posItem{"lparen", x.LParen.Pos, "(", false})
 			for _, l := range x.Line {
 				addComs(&l.Comments)
 				b.Lines = append(b.Lines, toksOf(l.Token))
 				if len(l.Token) > 0 {
-					positions = append(positions, posItem{"line start", l.Start, l.Token[0]})
+					positions = append(positions, posItem{"line start", l.Start, l.Token[0], false})
+					positions = append(positions, posItem{"line end", l.End, l.Token[len(l.Token)-1], true})
 				}
 			}
 			addComs(&x.RParen.Comments)
-			positions = append(positions, posItem{"rparen", x.RParen.Pos, ")"})
+			positions = append(positions, posItem{"rparen", x.RParen.Pos, ")", false})
 			stmts = append(stmts, b)
 		}
 	}
@@ -140,6 +143,12 @@ func positionOK(data []byte, p posItem) string {
 	col := 1 + utf8.RuneCount(before[bytes.LastIndexByte(before, '\n')+1:])
 	if line != p.pos.Line || col != p.pos.LineRune {
 		return fmt.Sprintf("%s: position %d:%d does not agree with byte offset %d (which is %d:%d)", p.what, p.pos.Line, p.pos.LineRune, p.pos.Byte, line, col)
+	}
+	if p.end {
+		if p.text != "" && !bytes.HasSuffix(data[:p.pos.Byte], []byte(p.text)) {
+			return fmt.Sprintf("%s: the text ending at byte offset %d is not %q", p.what, p.pos.Byte, p.text)
+		}
+		return ""
 	}
 	if p.text != "" && !bytes.HasPrefix(data[p.pos.Byte:], []byte(p.text)) {
 		return fmt.Sprintf("%s: the text at byte offset %d is not %q", p.what, p.pos.Byte, p.text)
@@ -231,7 +240,7 @@ func checkExported(data []byte) []core.Violation {
 			}
 			if el, ok := o.err.(modfile.ErrorList); ok {
 				for _, e := range el {
-					if msg := positionOK(data, posItem{"error", e.Pos, ""}); msg != "" {
+					if msg := positionOK(data, posItem{"error", e.Pos, "", false}); msg != "" {
 						vs = append(vs, core.Violation{Sig: "c20:error-position:" + name, What: msg + " in error " + e.Error() + " of " + name + " on " + q})
 						break
 					}
@@ -302,7 +311,7 @@ func checkSyntaxInput(data []byte, exp *synExp) (vs []core.Violation, accepted b
 		}
 		if el, ok := o.err.(modfile.ErrorList); ok {
 			for _, e := range el {
-				if msg := positionOK(data, posItem{"error", e.Pos, ""}); msg != "" {
+				if msg := positionOK(data, posItem{"error", e.Pos, "", false}); msg != "" {
 					vs = append(vs, core.Violation{Sig: "c20:error-position", What: msg + " in error " + e.Error() + " on " + q})
 				}
 			}
@@ -636,7 +645,10 @@ func checkWellFormed(c *core.Case) ([]core.Violation, bool) {
 			if v.crlf {
 				nl = "\r\n"
 			}
-			for _, unk := range []string{"frobnicate example.com/x v1.0.0" + nl, "frobnicate (" + nl + "\ta b" + nl + "\tc" + nl + ")" + nl, "exclude2 x" + nl} {
+			for _, unk := range []string{"frobnicate example.com/x v1.0.0" + nl, "frobnicate (" + nl + "\ta b" + nl + "\tc" + nl + ")" + nl, "exclude2 x" + nl,
+				// blocks whose header has more than one word are unknown blocks whatever their first word is
+				"require future (" + nl + "\texample.com/zzz v1.0.0" + nl + ")" + nl, "module experimental (" + nl + "\texample.com/other" + nl + ")" + nl,
+				"retract soon (" + nl + "\tv9.9.9" + nl + ")" + nl} {
 				t2 := text + unk
 				lf2, err := modfile.ParseLax("go.mod", []byte(t2), nil)
 				if err != nil {
